@@ -728,12 +728,15 @@ func (db *SpecDB) LoadSpecFile(path string, trusted bool) error {
 					}
 					parts := strings.Fields(text[:i])
 					rhs := strings.Fields(text[i+2:])
-					if len(parts) != 2 || len(rhs) < 3 || (rhs[0] != "call" && rhs[0] != "after" && rhs[0] != "arg") {
+					if len(parts) != 2 || len(rhs) < 3 || (rhs[0] != "call" && rhs[0] != "after" && rhs[0] != "arg" && rhs[0] != "before" && rhs[0] != "ghost") {
 						return fail("bind name type := call key n  |  after key n expr  |  arg key n i")
 					}
 					cl.Name, cl.Type = parts[0], parts[1]
 					cl.Text = rhs[1] + " " + rhs[2]
-					if rhs[0] == "after" {
+					if rhs[0] == "before" {
+						cl.Type = "before:" + cl.Type
+					}
+					if rhs[0] == "after" || rhs[0] == "before" {
 						if len(rhs) < 4 {
 							return fail("bind name type := after key n expr")
 						}
@@ -742,6 +745,12 @@ func (db *SpecDB) LoadSpecFile(path string, trusted bool) error {
 							return fail("%v", err)
 						}
 						cl.Expr = e
+					} else if rhs[0] == "ghost" {
+						// bind x T := ghost KEY N NAME : the callee's ghost output NAME
+						if len(rhs) != 4 {
+							return fail("bind name type := ghost key n name")
+						}
+						cl.Exprs = []SExpr{&SIdent{rhs[3]}}
 					} else if rhs[0] == "arg" {
 						if len(rhs) != 4 {
 							return fail("bind name type := arg key n i")
